@@ -2760,7 +2760,11 @@ Theorem dehb_top_of_previous_rung : forall first md nb ops m0 st bid b sl lv,
     get_top_list md vals (length sl) = (top, rest) /\
     (length sl <= length vals)%nat /\ length top = length sl /\
     top_list_for_previous_rung b = Ok top /\
-    forall pos t, nth_error top pos = Some t -> top_of_previous_rung (d_mgr st) bid pos = Ok t.
+    (forall pos t, nth_error top pos = Some t -> top_of_previous_rung (d_mgr st) bid pos = Ok t) /\
+    (* every entry of the top list is a trial id if enough jobs of the rung below have a valid
+       result, or if no job of that rung was reported as failed without a trial *)
+    ((length sl <= length (valid_entries vals))%nat -> Forall (fun t => t <> None) top) /\
+    ((forall s, In s prev -> fst s <> None) -> Forall (fun t => t <> None) top).
 Proof.
   intros first md nb ops m0 st bid b sl lv H E Nb C Hc. destruct (dreach _ _ _ _ _ _ H E) as [I [NE CKs]].
   assert (B := di_b _ _ _ I _ _ Nb). destruct (crl_inv _ _ _ C) as [Nth _].
@@ -2785,8 +2789,65 @@ Proof.
   { unfold top_list_for_previous_rung, size_of_current_rung.
     replace (Nat.eqb (current_rung b) 0) with false by (symmetry; apply Nat.eqb_neq; lia).
     rewrite Np, C, OV, (db_mode _ _ _ B), G. reflexivity. }
-  exists prev, lvp, vals, top, rest. repeat split; auto; try lia.
-  intros pos t Ht. unfold top_of_previous_rung. rewrite Nb, TL, Ht. reflexivity.
+  destruct (occupied_values_all prev) as [vals' [OV' [_ IFF]]].
+  { rewrite Forall_forall in Occ. intros s Hs. exact (proj1 (Occ _ Hs)). }
+  rewrite OV in OV'. inversion OV'; subst vals'. clear OV'.
+  exists prev, lvp, vals, top, rest.
+  split; [exact Np|]. split; [exact OV|]. split; [exact G|]. split; [lia|]. split; [exact LT|]. split; [exact TL|].
+  split; [|split].
+  - intros pos t Ht. unfold top_of_previous_rung. rewrite Nb, TL, Ht. reflexivity.
+  - intros Hv. unfold get_top_list in G. apply Nat.leb_le in Hv. rewrite Hv in G. inversion G as [[Top Rem]].
+    apply Forall_forall. intros t Ht. apply in_map_iff in Ht. destruct Ht as [[t' q] [Et Hin]]. simpl in Et. subst t'.
+    apply in_firstn in Hin. eapply Permutation_in in Hin; [|apply sort_stable_perm].
+    apply valid_entries_In in Hin. apply IFF in Hin.
+    rewrite Forall_forall in Occ. destruct (Occ _ Hin) as [_ Ok']. destruct t; [discriminate|contradiction].
+  - intros Hs. destruct (get_top_list_sub _ _ _ _ _ G) as [_ [rest' PT]]; [lia|].
+    apply Forall_forall. intros t Ht.
+    assert (Hin : In t (map fst vals)) by (eapply Permutation_in; [exact PT|apply in_or_app; left; exact Ht]).
+    rewrite MF in Hin. apply in_map_iff in Hin. destruct Hin as [s0 [<- Hs0]]. exact (Hs _ Hs0).
+Qed.
+
+(* ---- dehb.py _mutation: the trial ids read for a job above the base rung ----------------- *)
+Theorem dehb_mutation_reads_trials : forall first md nb ops m0 st bid b sl lv prev lvp vals gp rt,
+  dehb_mgr_init first md nb = Ok m0 -> drun_from first md nb ops = Ok st ->
+  nth_error (m_brackets (d_mgr st)) bid = Some b -> current_rung_and_level b = Ok (sl, lv) ->
+  (0 < current_rung b)%nat ->
+  nth_error (rungs b) (current_rung b - 1) = Some (Filled prev lvp) -> occupied_values prev = Some vals ->
+  ((length sl <= length (valid_entries vals))%nat \/ (forall s, In s prev -> fst s <> None)) ->
+  forall pos, (pos < length sl)%nat ->
+    exists t, read_trial_info (mutation_parent (d_mgr st) bid false lv (length sl) gp rt pos) = Ok t.
+Proof.
+  intros first md nb ops m0 st bid b sl lv prev lvp vals gp rt H E Nb C Hc Np OV Cond pos Hp.
+  destruct (dehb_top_of_previous_rung _ _ _ _ _ _ _ _ _ _ H E Nb C Hc)
+    as [prev' [lvp' [vals' [top [rest [Np' [OV' [G [Lv [LT [TL [Top [F1 F2]]]]]]]]]]]]].
+  rewrite Np in Np'. inversion Np'; subst prev' lvp'. rewrite OV in OV'. inversion OV'; subst vals'.
+  assert (F : Forall (fun t => t <> None) top) by (destruct Cond as [X|X]; [exact (F1 X)|exact (F2 X)]).
+  destruct (nth_error top pos) as [t|] eqn:Ht.
+  2:{ apply nth_error_None in Ht. lia. }
+  rewrite Forall_forall in F. assert (X := F _ (nth_error_In _ _ Ht)).
+  destruct t as [t|]; [|congruence]. exists t. unfold mutation_parent.
+  replace (Nat.leb (length sl) pos) with false by (symmetry; apply Nat.leb_gt; exact Hp).
+  rewrite (Top _ _ Ht). reflexivity.
+Qed.
+
+(* REFUTED without that condition: a rung whose jobs were all reported as failed (dehb.py records
+   them with trial id None) is promoted as it is, and _de_mutation reads _trial_info[None].
+   Witness: 3 rung levels (3, 2, 1 slots), both jobs of the first rung of bracket 1 fail. *)
+Definition dehb_keynone_first : rung_system := [(3%nat, 1%Z); (2%nat, 3%Z); (1%nat, 9%Z)].
+Definition dehb_keynone_ops : list dop := [DNext; DNext; DNext; DNext; DNext; DFail 3; DFail 3].
+
+Theorem dehb_mutation_reads_none_refuted :
+  exists first md nb ops st bid b sl lv gp rt pos,
+    drun_from first md nb ops = Ok st /\ (0 < bid)%nat /\
+    nth_error (m_brackets (d_mgr st)) bid = Some b /\ current_rung_and_level b = Ok (sl, lv) /\
+    (0 < current_rung b)%nat /\ (pos < length sl)%nat /\
+    read_trial_info (mutation_parent (d_mgr st) bid false lv (length sl) gp rt pos) = Error EKeyNone.
+Proof.
+  exists dehb_keynone_first, Min, None, dehb_keynone_ops.
+  destruct (drun_from dehb_keynone_first Min None dehb_keynone_ops) as [st|e] eqn:E; vm_compute in E; [|discriminate].
+  inversion E; subst st. eexists _, 1%nat, _, _, _, [], 0%Z, 0%nat.
+  split; [reflexivity|]. split; [lia|]. split; [reflexivity|]. split; [reflexivity|].
+  split; [simpl; lia|]. split; [simpl; lia|]. vm_compute. reflexivity.
 Qed.
 
 (* regression example for former finding F-C05-2 (3 rung levels, 1 bracket per iteration): the job
